@@ -28,17 +28,44 @@ Lemma enc_items_cons x t : enc_items (x :: t) = enc_item x ++ enc_items t. Proof
 Lemma rsizes_cons x t : rsizes (x :: t) = (rsize x + rsizes t)%nat.
 Proof. reflexivity. Qed.
 
-Lemma pkg_tree_rsize h tbl b off k n elems : rsize (pkg_tree h tbl b off k n elems) = (3 + length elems)%nat.
+Lemma pel_trees_cons h tbl b off x t : pel_trees h tbl b off (x :: t) = pel_tree h tbl b off x :: pel_trees h tbl (b + N.of_nat (pel_sz x)) (off + lenN (enc_pel x)) t.
+Proof. reflexivity. Qed.
+Lemma pels_sz_cons x t : pels_sz (x :: t) = (pel_sz x + pels_sz t)%nat. Proof. reflexivity. Qed.
+Lemma pels_cnt_cons x t : pels_cnt (x :: t) = (pel_cnt x + pels_cnt t)%nat. Proof. reflexivity. Qed.
+Lemma enc_pels_cons x t : enc_pels (x :: t) = enc_pel x ++ enc_pels t. Proof. reflexivity. Qed.
+
+Lemma pel_trees_rsizes h tbl : forall l b off, rsizes (pel_trees h tbl b off l) = pels_sz l.
 Proof.
-  unfold pkg_tree. rewrite rsize_eq, rsizes_cons, rsizes_cons, !rsize_eq, leaf_row_rsizes, len_cst_pays. cbn [rsizes fold_right]. lia.
+  induction l as [|a rest IH|k n es rest IHe IH] using pels_ind; intros b off; [reflexivity| |].
+  - rewrite pel_trees_cons, rsizes_cons, IH, pels_sz_cons. cbn [pel_tree]. rewrite rsize_eq. reflexivity.
+  - rewrite pel_trees_cons, rsizes_cons, IH, pels_sz_cons, pel_tree_sub, pel_sz_sub. rewrite rsize_eq, rsizes_cons, rsizes_cons, !rsize_eq, IHe.
+    cbn [rsizes fold_right]. lia.
 Qed.
 
-Lemma pkg_tree_nodes h tbl b off k n elems x : In x (rnodes (pkg_tree h tbl b off k n elems)) <-> b <= x < b + 3 + N.of_nat (length elems).
+Lemma pel_tree_rsize h tbl b off e : rsize (pel_tree h tbl b off e) = pel_sz e.
+Proof. pose proof (pel_trees_rsizes h tbl [e] b off) as E. cbn [pel_trees rsizes fold_right pels_sz] in E. lia. Qed.
+
+Lemma pel_trees_nodes h tbl : forall l b off x, In x (rnodesl (pel_trees h tbl b off l)) <-> b <= x < b + N.of_nat (pels_sz l).
 Proof.
-  unfold pkg_tree. rewrite rnodes_eq. unfold rnodesl. cbn [flat_map]. rewrite !rnodes_eq. cbn [rnodesl flat_map app In]. rewrite !app_nil_r.
-  fold (rnodesl (leaf_row (b + 3) (cst_pays h tbl (off + 1 + k + 1) elems))).
-  pose proof (leaf_row_nodes (b + 3) (cst_pays h tbl (off + 1 + k + 1) elems) x) as Hl. rewrite len_cst_pays in Hl. rewrite Hl. lia.
+  induction l as [|a rest IH|k n es rest IHe IH] using pels_ind; intros b off x; [cbn; lia| |].
+  - rewrite pel_trees_cons, pels_sz_cons. unfold rnodesl. cbn [flat_map]. fold (rnodesl (pel_trees h tbl (b + N.of_nat (pel_sz (PLeaf a))) (off + lenN (enc_pel (PLeaf a))) rest)).
+    rewrite in_app_iff, IH. cbn [pel_tree pel_sz]. rewrite rnodes_eq. cbn [rnodesl flat_map In]. lia.
+  - rewrite pel_trees_cons, pels_sz_cons. unfold rnodesl. cbn [flat_map]. fold (rnodesl (pel_trees h tbl (b + N.of_nat (pel_sz (PSub k n es))) (off + lenN (enc_pel (PSub k n es))) rest)).
+    rewrite in_app_iff, IH, pel_tree_sub, pel_sz_sub. rewrite rnodes_eq. unfold rnodesl at 1. cbn [flat_map]. rewrite !rnodes_eq. cbn [rnodesl flat_map app In]. rewrite !app_nil_r.
+    fold (rnodesl (pel_trees h tbl (b + 3) (off + 1 + k + 1) es)). rewrite IHe. lia.
 Qed.
+
+Lemma pel_tree_nodes h tbl b off e x : In x (rnodes (pel_tree h tbl b off e)) <-> b <= x < b + N.of_nat (pel_sz e).
+Proof.
+  pose proof (pel_trees_nodes h tbl [e] b off x) as E. cbn [pel_trees pels_sz fold_right] in E. unfold rnodesl in E. cbn [flat_map] in E. rewrite app_nil_r in E.
+  rewrite E. lia.
+Qed.
+
+Lemma pkg_tree_rsize h tbl b off k n elems : rsize (pkg_tree h tbl b off k n elems) = (3 + pels_sz elems)%nat.
+Proof. unfold pkg_tree. rewrite pel_tree_rsize, pel_sz_sub. reflexivity. Qed.
+
+Lemma pkg_tree_nodes h tbl b off k n elems x : In x (rnodes (pkg_tree h tbl b off k n elems)) <-> b <= x < b + 3 + N.of_nat (pels_sz elems).
+Proof. unfold pkg_tree. rewrite pel_tree_nodes, pel_sz_sub. lia. Qed.
 
 Lemma lay1_rsizes h tbl : forall l b off, rsizes (lay1 h tbl b off l) = iszs l.
 Proof.
@@ -295,67 +322,86 @@ Proof.
   - intros x Hx. apply pget_app_old. exact Hx.
 Qed.
 
-Lemma post1_pkg g pl sc h tbl seg k n elems off :
-  sc < N.of_nat (length pl) -> length (g_kids g) = length pl ->
-  let b := N.of_nat (length pl) in
-  Post1 g pl (g_args (g_args (g_head (g_name g sc) sc) (b + 2) 2) (b + 4) (length elems))
-        (pl ++ [nam_pay h off name_zero; pth_pay h tbl (off + 1); pkg_pay h (off + 5); num_pay h W1 (off + 5 + 1 + k) n; sb_pay h (off + 5 + 1 + k + 1)] ++
-               cst_pays h tbl (off + 5 + 1 + k + 1) elems) sc
-        (lay1_item h tbl b off (IPkg seg k n elems)).
+(** a single new childless object of the scope *)
+Lemma post1_single g pl sc p : sc < N.of_nat (length pl) -> length (g_kids g) = length pl ->
+  Post1 g pl (g_head g sc) (pl ++ [p]) sc [RN (N.of_nat (length pl)) p []].
 Proof.
-  intros Hsc Hlg b. set (m := length elems).
-  set (hd5 := [nam_pay h off name_zero; pth_pay h tbl (off + 1); pkg_pay h (off + 5); num_pay h W1 (off + 5 + 1 + k) n; sb_pay h (off + 5 + 1 + k + 1)]).
-  set (cs := cst_pays h tbl (off + 5 + 1 + k + 1) elems). assert (Hlc : length cs = m) by apply len_cst_pays.
-  set (G1 := g_head (g_name g sc) sc).
-  assert (HlG1 : length (g_kids G1) = (length pl + 3)%nat) by (unfold G1; rewrite len_g_head, len_g_name, Hlg; lia).
+  intros Hsc Hlg. set (b := N.of_nat (length pl)).
   assert (Hoob : forall i, b <= i -> kids g i = []) by (intros i Hi; apply kids_oob; rewrite Hlg; exact Hi).
-  assert (HK1 : forall i, kids G1 i = if i =? sc then kids g sc ++ [b; b + 2] else if i =? b then [b + 1] else kids g i).
-  { intros i. unfold G1. rewrite kids_step by (rewrite Hlg; exact Hsc). cbv zeta. rewrite Hlg. reflexivity. }
-  set (G2 := g_args G1 (b + 2) 2).
-  assert (HlG2 : length (g_kids G2) = (length pl + 5)%nat) by (unfold G2; rewrite len_g_args, HlG1; lia).
-  assert (HK2 : forall i, kids G2 i = if i =? b + 2 then [b + 3; b + 4] else kids G1 i).
-  { intros i. unfold G2. rewrite kids_g_args by (rewrite HlG1; unfold b; lia). rewrite HlG1.
-    destruct (N.eqb_spec i (b + 2)) as [->|_]; [|reflexivity]. rewrite HK1. destruct (N.eqb_spec (b + 2) sc); [lia|]. destruct (N.eqb_spec (b + 2) b); [lia|].
-    rewrite (Hoob (b + 2)) by lia. cbn [seqN app]. f_equal; [unfold b; lia|f_equal; unfold b; lia]. }
-  assert (HK : forall i, kids (g_args G2 (b + 4) m) i =
-             if i =? b + 4 then seqN (b + 5) m else if i =? b + 2 then [b + 3; b + 4] else if i =? sc then kids g sc ++ [b; b + 2] else if i =? b then [b + 1] else kids g i).
-  { intros i. rewrite kids_g_args by (rewrite HlG2; unfold b; lia). rewrite HlG2, !HK2, !HK1.
-    destruct (N.eqb_spec i (b + 4)) as [->|_]; [|reflexivity].
-    destruct (N.eqb_spec (b + 4) (b + 2)); [lia|]. destruct (N.eqb_spec (b + 4) sc); [lia|]. destruct (N.eqb_spec (b + 4) b); [lia|].
-    rewrite (Hoob (b + 4)) by lia. cbn [app]. f_equal. unfold b. lia. }
-  assert (Hp : forall c, pget (pl ++ hd5 ++ cs) (b + c) = pget (hd5 ++ cs) c) by (intros c; unfold b; apply pget_app_new).
-  fold hd5 cs G1 G2. cbn [lay1_item pkg_tree]. fold cs. constructor.
-  - apply free_g_args. apply free_g_args. reflexivity.
-  - rewrite app_length, app_length. unfold cs at 1. rewrite len_cst_pays. cbn [length hd5]. rewrite rsizes_cons, rsizes_cons, rsize_eq, rsizes_cons, rsize_eq.
-    change (RN (b + 2) (pkg_pay h (off + 5)) [RN (b + 2 + 1) (num_pay h W1 (off + 5 + 1 + k) n) []; RN (b + 2 + 2) (sb_pay h (off + 5 + 1 + k + 1)) (leaf_row (b + 2 + 3) cs)])
-      with (pkg_tree h tbl (b + 2) (off + 5) k n elems). rewrite pkg_tree_rsize. cbn [rsizes fold_right]. fold m. lia.
-  - rewrite HK. destruct (N.eqb_spec sc (b + 4)); [lia|]. destruct (N.eqb_spec sc (b + 2)); [lia|]. rewrite N.eqb_refl. reflexivity.
-  - assert (Hk_leaf : forall y, (y = b + 1 \/ y = b + 3 \/ b + 5 <= y) -> kids (g_args G2 (b + 4) m) y = []).
-    { intros y Hy. rewrite HK. destruct (N.eqb_spec y (b + 4)); [lia|]. destruct (N.eqb_spec y (b + 2)); [lia|]. destruct (N.eqb_spec y sc); [lia|].
-      destruct (N.eqb_spec y b); [lia|]. apply Hoob. lia. }
-    constructor; [|constructor; [|constructor]].
-    + constructor.
-      * rewrite <- (N.add_0_r b). rewrite Hp. reflexivity.
-      * rewrite HK. destruct (N.eqb_spec b (b + 4)); [lia|]. destruct (N.eqb_spec b (b + 2)); [lia|]. destruct (N.eqb_spec b sc); [lia|]. rewrite N.eqb_refl. reflexivity.
-      * constructor; [|constructor]. constructor; [rewrite Hp; reflexivity|apply Hk_leaf; lia|constructor].
-    + constructor.
-      * rewrite Hp. reflexivity.
-      * rewrite HK. destruct (N.eqb_spec (b + 2) (b + 4)); [lia|]. rewrite N.eqb_refl. cbn [map ridx]. f_equal; [lia|f_equal; lia].
-      * constructor; [|constructor; [|constructor]].
-        -- constructor; [replace (b + 2 + 1) with (b + 3) by lia; rewrite Hp; reflexivity|apply Hk_leaf; lia|constructor].
-        -- constructor.
-           ++ replace (b + 2 + 2) with (b + 4) by lia. rewrite Hp. reflexivity.
-           ++ replace (b + 2 + 2) with (b + 4) by lia. rewrite HK, N.eqb_refl, leaf_row_idx. unfold cs. rewrite len_cst_pays. fold m. f_equal. lia.
-           ++ apply leaf_row_desc. intros i p Hi. assert (Hilt : (i < m)%nat) by (rewrite <- Hlc; apply nth_error_Some; unfold cs; rewrite Hi; discriminate).
-              split; [|apply Hk_leaf; lia].
-              replace (b + 2 + 3 + N.of_nat i) with (b + N.of_nat (5 + i)) by lia. rewrite Hp. unfold pget. rewrite Nat2N.id.
-              rewrite nth_error_app2 by (cbn [length hd5]; lia). cbn [length hd5]. replace (5 + i - 5)%nat with i by lia. exact Hi.
-  - intros x Hx Hne. rewrite HK. destruct (N.eqb_spec x (b + 4)); [lia|]. destruct (N.eqb_spec x (b + 2)); [lia|].
-    apply N.eqb_neq in Hne. rewrite Hne. destruct (N.eqb_spec x b); [lia|reflexivity].
+  assert (HK : forall i, kids (g_head g sc) i = if i =? sc then kids g sc ++ [b] else kids g i).
+  { intros i. rewrite kids_g_head by (rewrite Hlg; exact Hsc). rewrite Hlg. reflexivity. }
+  constructor.
+  - reflexivity.
+  - rewrite app_length. cbn [length rsizes fold_right]. rewrite rsize_eq. cbn [rsizes fold_right]. lia.
+  - rewrite HK, N.eqb_refl. reflexivity.
+  - constructor; [|constructor]. constructor; [apply pget_app_last| |constructor].
+    rewrite HK. destruct (N.eqb_spec b sc); [lia|]. apply Hoob. lia.
+  - intros x Hx Hne. rewrite HK. apply N.eqb_neq in Hne. rewrite Hne. reflexivity.
   - intros x Hx. apply pget_app_old. exact Hx.
 Qed.
 
-(** ---- the first pass over a list of items ---- *)
+(** a Name object with its name path; the value follows as an object of its own *)
+Lemma post1_nameonly g pl sc h tbl off : sc < N.of_nat (length pl) -> length (g_kids g) = length pl ->
+  Post1 g pl (g_name g sc) (pl ++ [nam_pay h off name_zero; pth_pay h tbl (off + 1)]) sc
+        [RN (N.of_nat (length pl)) (nam_pay h off name_zero) [RN (N.of_nat (length pl) + 1) (pth_pay h tbl (off + 1)) []]].
+Proof.
+  intros Hsc Hlg. set (b := N.of_nat (length pl)).
+  assert (Hoob : forall i, b <= i -> kids g i = []) by (intros i Hi; apply kids_oob; rewrite Hlg; exact Hi).
+  assert (HK : forall i, kids (g_name g sc) i = if i =? b then [b + 1] else if i =? sc then kids g sc ++ [b] else kids g i).
+  { intros i. rewrite kids_g_name by (rewrite Hlg; exact Hsc). rewrite Hlg. reflexivity. }
+  set (news := [nam_pay h off name_zero; pth_pay h tbl (off + 1)]).
+  assert (Hp : forall c, c < 2 -> pget (pl ++ news) (b + c) = pget news c) by (intros c Hc; unfold b; apply pget_app_new).
+  constructor.
+  - reflexivity.
+  - rewrite app_length. unfold news. cbn [length rsizes fold_right]. rewrite !rsize_eq. cbn [rsizes fold_right]. rewrite rsize_eq. cbn [rsizes fold_right]. lia.
+  - rewrite HK. destruct (N.eqb_spec sc b); [lia|]. rewrite N.eqb_refl. reflexivity.
+  - constructor; [|constructor]. constructor.
+    + rewrite <- (N.add_0_r b). rewrite (Hp 0) by lia. reflexivity.
+    + rewrite HK, N.eqb_refl. reflexivity.
+    + constructor; [|constructor]. constructor; [rewrite (Hp 1) by lia; reflexivity| |constructor].
+      rewrite HK. destruct (N.eqb_spec (b + 1) b); [lia|]. destruct (N.eqb_spec (b + 1) sc); [lia|]. apply Hoob. lia.
+  - intros x Hx Hne. rewrite HK. destruct (N.eqb_spec x b); [lia|]. apply N.eqb_neq in Hne. rewrite Hne. reflexivity.
+  - intros x Hx. apply pget_app_old. exact Hx.
+Qed.
+
+(** a package: the element count and a ScopeBlock with the elements below it *)
+Lemma post1_sub g pl sc g2 pl2 h tbl k n es off :
+  sc < N.of_nat (length pl) -> length (g_kids g) = length pl ->
+  Post1 (g_args (g_head g sc) (N.of_nat (length pl)) 2)
+        (pl ++ [pkg_pay h off; num_pay h W1 (off + 1 + k) n; sb_pay h (off + 1 + k + 1)]) g2 pl2
+        (N.of_nat (length pl) + 2) (pel_trees h tbl (N.of_nat (length pl) + 3) (off + 1 + k + 1) es) ->
+  Post1 g pl g2 pl2 sc [pel_tree h tbl (N.of_nat (length pl)) off (PSub k n es)].
+Proof.
+  intros Hsc Hlg [A1 A2 A3 A4 A5 A6]. set (b := N.of_nat (length pl)) in *.
+  set (news := [pkg_pay h off; num_pay h W1 (off + 1 + k) n; sb_pay h (off + 1 + k + 1)]) in *.
+  set (pl1 := pl ++ news) in *.
+  assert (Hl1 : N.of_nat (length pl1) = b + 3) by (unfold pl1, b, news; rewrite app_length; cbn [length]; lia).
+  assert (Hoob : forall i, b <= i -> kids g i = []) by (intros i Hi; apply kids_oob; rewrite Hlg; exact Hi).
+  assert (HK : forall i, kids (g_args (g_head g sc) b 2) i =
+             if i =? b then seqN (b + 1) 2 else if i =? sc then kids g sc ++ [b] else kids g i).
+  { intros i. rewrite kids_g_args by (rewrite len_g_head, Hlg; unfold b; lia). rewrite len_g_head, !kids_g_head by (rewrite Hlg; exact Hsc). rewrite Hlg.
+    destruct (N.eqb_spec i b) as [->|Hib].
+    - destruct (N.eqb_spec b sc); [lia|]. rewrite (Hoob b) by lia. cbn [app]. f_equal. unfold b. lia.
+    - reflexivity. }
+  assert (Hp : forall c, c < 3 -> pget pl2 (b + c) = pget news c).
+  { intros c Hc. rewrite A6 by lia. unfold pl1, b. apply pget_app_new. }
+  rewrite pel_tree_sub. constructor.
+  - exact A1.
+  - rewrite A2. unfold pl1. rewrite app_length. unfold news. cbn [length rsizes fold_right]. rewrite !rsize_eq. cbn [rsizes fold_right]. rewrite !rsize_eq. cbn [rsizes fold_right].
+    fold (rsizes (pel_trees h tbl (b + 3) (off + 1 + k + 1) es)). lia.
+  - rewrite A5 by lia. rewrite HK. destruct (N.eqb_spec sc b); [lia|]. rewrite N.eqb_refl. reflexivity.
+  - constructor; [|constructor]. constructor.
+    + rewrite <- (N.add_0_r b). rewrite (Hp 0) by lia. reflexivity.
+    + rewrite A5 by lia. rewrite HK, N.eqb_refl. cbn [map ridx seqN]. f_equal. f_equal. lia.
+    + constructor; [|constructor; [|constructor]].
+      * constructor; [rewrite (Hp 1) by lia; reflexivity| |constructor].
+        rewrite A5 by lia. rewrite HK. destruct (N.eqb_spec (b + 1) b); [lia|]. destruct (N.eqb_spec (b + 1) sc); [lia|]. apply Hoob. lia.
+      * constructor; [rewrite (Hp 2) by lia; reflexivity| |exact A4].
+        rewrite A3. rewrite HK. destruct (N.eqb_spec (b + 2) b); [lia|]. destruct (N.eqb_spec (b + 2) sc); [lia|]. rewrite (Hoob (b + 2)) by lia. reflexivity.
+  - intros x Hx Hne. rewrite A5 by lia. rewrite HK. destruct (N.eqb_spec x b); [lia|]. apply N.eqb_neq in Hne. rewrite Hne. reflexivity.
+  - intros x Hx. rewrite A6 by lia. unfold pl1. apply pget_app_old. exact Hx.
+Qed.
+
 Lemma lenN_enc_pkglen k v : pkglen_admissible k v -> lenN (enc_pkglen k v) = k.
 Proof. intros [(-> & _)|[(-> & _)|[(-> & _)|(-> & _)]]]; reflexivity. Qed.
 
@@ -706,111 +752,263 @@ Qed.
 
 Ltac lnorm := repeat (first [rewrite <- app_assoc | progress cbn [app]]).
 
+(** ---- the elements of a package: constants and packages, parsed by the same loop ---- *)
+Definition ESpec (els : list pel) : Prop :=
+  forall fo fi off e t sc ss es g pl pre post a R (Q : pres -> pstate -> Prop),
+  Rep t g pl -> g_free g = [] -> N.of_nat (length pl) + N.of_nat (pels_sz els) < InvalidIndex ->
+  data = pre ++ enc_pels els ++ post -> off = lenN pre -> lenN pre + lenN (enc_pels els) <= e -> e <= len ->
+  forallb pel_okb els = true -> length ss = length es ->
+  pget pl sc = Some a -> y_op a <> opFreed ->
+  (8 <= R)%nat -> (pels_cnt els + R <= fi)%nat -> (pels_cnt els + R + 1 <= fo)%nat ->
+  (forall t' g' pl' fo' fi', Rep t' g' pl' -> Post1 g pl g' pl' sc (pel_trees h tbl (N.of_nat (length pl)) off els) ->
+      (R <= fi')%nat -> (R + 1 <= fo')%nat ->
+      wp False (list_cont fo' fi') (st1 (off + lenN (enc_pels els)) e t' (sc :: ss) (e :: es)) Q) ->
+  wp False (list_cont fo fi) (st1 off e t (sc :: ss) (e :: es)) Q.
+
+Lemma espec_nil : ESpec [].
+Proof.
+  intros fo fi off e t sc ss es g pl pre post a R Q H Hfree Hroom Hd Ho He Hel Hok Hbal Hsc Hlsc HR Hfi Hfo K.
+  specialize (K t g pl fo fi H (Post1_nil g pl sc Hfree)). cbn [enc_pels flat_map] in K. change (lenN (@nil N)) with 0 in K.
+  rewrite N.add_0_r in K. apply K; cbn [pels_cnt fold_right] in *; lia.
+Qed.
+
+Lemma espec_leaf d rest : ESpec rest -> ESpec (PLeaf d :: rest).
+Proof.
+  intros IH fo fi off e t sc ss es g pl pre post a R Q H Hfree Hroom Hd Ho He Hel Hok Hbal Hsc Hlsc HR Hfi Hfo K.
+  cbn [forallb] in Hok. apply andb_prop in Hok. destruct Hok as [Hdok Hok]. cbn [pel_okb] in Hdok.
+  rewrite pels_sz_cons in Hroom. cbn [pel_sz] in Hroom. rewrite pels_cnt_cons in Hfi, Hfo. cbn [pel_cnt] in Hfi, Hfo.
+  rewrite enc_pels_cons in Hd, He. cbn [enc_pel] in Hd, He. subst off.
+  pose proof (rep_len_g _ _ _ H) as Hlg.
+  assert (Hsclt : sc < N.of_nat (length pl)) by (eapply pget_lt; eauto).
+  set (b := N.of_nat (length pl)) in *.
+  set (s0 := st1 (lenN pre) e t (sc :: ss) (e :: es)).
+  assert (Ef : exists f', fi = S (S (S (S f')))) by (exists (fi - 4)%nat; lia). destruct Ef as (f' & ->).
+  apply wp_list_cont_S. unfold eofM, rq. apply wp_bind, wp_get.
+  assert (Hcont : forall t1 pre1, lenN pre1 = lenN pre + lenN (enc_targ d) -> data = pre1 ++ enc_pels rest ++ post ->
+            Rep t1 (g_head g sc) (pl ++ [targ_pay h tbl (lenN pre) d]) ->
+            wp False (list_cont fo (S (S (S f')))) (st1 (lenN pre1) e t1 (sc :: ss) (e :: es)) Q).
+  { intros t1 pre1 Hlp1 Hd1 H1.
+    set (pl1 := pl ++ [targ_pay h tbl (lenN pre) d]) in *.
+    assert (Hl1 : length pl1 = S (length pl)) by (unfold pl1; rewrite app_length; cbn [length]; lia).
+    assert (P01 : Post1 g pl (g_head g sc) pl1 sc [RN b (targ_pay h tbl (lenN pre) d) []]) by (apply post1_single; assumption).
+    eapply (IH fo _ (lenN pre1) e t1 sc ss es _ pl1 pre1 post a R Q);
+      [exact H1|reflexivity|rewrite Hl1; lia|exact Hd1|reflexivity| |exact Hel|exact Hok|exact Hbal| |exact Hlsc|exact HR|lia|lia|].
+    { rewrite Hlp1. rewrite lenN_app in He. lia. }
+    { unfold pl1. rewrite pget_app_old by exact Hsclt. exact Hsc. }
+    intros t2 g2 pl2 fo2 fi2 H2 P2 Hfi2 Hfo2. specialize (K t2 g2 pl2 fo2 fi2 H2).
+    rewrite pel_trees_cons in K. cbn [pel_tree pel_sz enc_pel] in K. fold b in K.
+    replace (b + N.of_nat 1) with (N.of_nat (length pl1)) in K by (rewrite Hl1; unfold b; lia).
+    rewrite enc_pels_cons, lenN_app in K. cbn [enc_pel] in K. rewrite N.add_assoc, <- Hlp1 in K.
+    apply K; [|exact Hfi2|exact Hfo2].
+    change (RN b (targ_pay h tbl (lenN pre) d) [] :: pel_trees h tbl (N.of_nat (length pl1)) (lenN pre1) rest)
+      with ([RN b (targ_pay h tbl (lenN pre) d) []] ++ pel_trees h tbl (N.of_nat (length pl1)) (lenN pre1) rest).
+    eapply Post1_app; [exact Hsclt| |exact P01|exact P2].
+    intros x Hx. unfold rnodesl in Hx. cbn [flat_map] in Hx. rewrite rnodes_eq in Hx. cbn [rnodesl flat_map app In] in Hx. rewrite Hl1. unfold b in *. lia. }
+  destruct d as [d|bs]; cbn [targ_okb enc_targ] in *.
+  + unfold cst_okb in Hdok. apply andb_prop in Hdok. destruct Hdok as [Hc Hv]. apply N.ltb_lt in Hv.
+    assert (Hat : at_token (p_r s0) pre (enc_op (d_op d) ++ Grammar.le_bytes (const_bytes (d_op d)) (d_v d) ++ enc_pels rest) post).
+    { apply mk_at; [ |reflexivity| |exact Hel|exact Hlen|exact Hsmall|exact Hbytes].
+      - rewrite Hd. unfold enc_const. rewrite <- !app_assoc. reflexivity.
+      - rewrite lenN_app in He. unfold enc_const in He. rewrite !lenN_app in *. lia. }
+    assert (Hne : eof (p_r s0) = false).
+    { destruct (enc_op_nonempty (d_op d)) as (x & l & Eop). rewrite Eop in Hat. cbn [app] in Hat. apply (at_not_eof _ _ _ _ _ Hat). }
+    rewrite Hne.
+    apply wp_bind. eapply wp_conseq.
+    { eapply (next_const _ s0 g pl pre (d_op d) (d_v d) (enc_pels rest) post sc ss a);
+        [exact H|exact Hfree|lia|exact Hat|exact Hc|exact Hv|reflexivity|exact Hsc|exact Hlsc]. }
+    intros res s1 (-> & t1 & -> & H1). change (pres_eqb ROk ROk) with true. cbv iota.
+    set (pre1 := pre ++ enc_const d).
+    assert (Hlp1 : lenN pre1 = lenN pre + lenN (enc_const d)) by (unfold pre1; apply lenN_app).
+    assert (Eoff : lenN pre + lenN (enc_op (d_op d)) + N.of_nat (const_bytes (d_op d)) = lenN pre1) by (rewrite Hlp1, lenN_enc_const; lia).
+    rewrite Eoff. change (with_tree (with_r s0 (set_offset_raw (p_r s0) (lenN pre1))) t1) with (st1 (lenN pre1) e t1 (sc :: ss) (e :: es)).
+    apply (Hcont t1 pre1 Hlp1); [unfold pre1; rewrite Hd, <- !app_assoc; reflexivity|exact H1].
+  + assert (Hasc : Forall ascii_char bs).
+    { unfold str_okb in Hdok. rewrite forallb_forall in Hdok. apply Forall_forall. intros c Hc. specialize (Hdok c Hc).
+      apply andb_prop in Hdok. destruct Hdok as [A B]. apply N.leb_le in A. apply N.leb_le in B. unfold ascii_char. lia. }
+    assert (Hat : at_token (p_r s0) pre (aml_pOpStringPrefix :: (bs ++ [0]) ++ enc_pels rest) post).
+    { apply mk_at; [ |reflexivity| |exact Hel|exact Hlen|exact Hsmall|exact Hbytes].
+      - rewrite Hd. cbn [app]. rewrite <- !app_assoc. reflexivity.
+      - exact He. }
+    rewrite (at_not_eof _ _ _ _ _ Hat).
+    apply wp_bind. eapply wp_conseq.
+    { eapply (next_string _ s0 g pl pre bs (enc_pels rest) post sc ss a); [exact H|exact Hfree|lia|exact Hat|exact Hasc|reflexivity|exact Hsc|exact Hlsc]. }
+    intros res s1 (-> & t1 & -> & H1). change (pres_eqb ROk ROk) with true. cbv iota.
+    set (pre1 := pre ++ OP_STRING :: bs ++ [0]).
+    assert (Hlp1 : lenN pre1 = lenN pre + lenN (OP_STRING :: bs ++ [0])) by (unfold pre1; apply lenN_app).
+    assert (Eoff : lenN pre + 1 + lenN bs + 1 = lenN pre1) by (rewrite Hlp1, lenN_cons, lenN_app; change (lenN [0]) with 1; lia).
+    rewrite Eoff. change (with_tree (with_r s0 (set_offset_raw (p_r s0) (lenN pre1))) t1) with (st1 (lenN pre1) e t1 (sc :: ss) (e :: es)).
+    apply (Hcont t1 pre1 Hlp1); [unfold pre1; rewrite Hd, <- !app_assoc; reflexivity|exact H1].
+Qed.
+
+Lemma espec_sub k n els rest : ESpec els -> ESpec rest -> ESpec (PSub k n els :: rest).
+Proof.
+  intros IHb IH fo fi off e t sc ss es g pl pre post a R Q H Hfree Hroom Hd Ho He Hel Hok Hbal Hsc Hlsc HR Hfi Hfo K.
+  cbn [forallb] in Hok. apply andb_prop in Hok. destruct Hok as [Hd_ok Hok]. rewrite pel_okb_sub in Hd_ok.
+  apply andb_prop in Hd_ok. destruct Hd_ok as [Hx Hel_ok]. apply andb_prop in Hx. destruct Hx as [Hn Hpk]. apply pkglen_okb_adm in Hpk. apply N.ltb_lt in Hn.
+  rewrite pels_sz_cons, pel_sz_sub in Hroom. rewrite pels_cnt_cons, pel_cnt_sub in Hfi, Hfo.
+  rewrite enc_pels_cons, enc_pel_sub in Hd, He. subst off.
+  set (v := k + lenN ([n] ++ enc_pels els)) in *.
+  assert (Hv : v = k + 1 + lenN (enc_pels els)) by (unfold v; rewrite lenN_app; change (lenN [n]) with 1; lia).
+  pose proof (lenN_enc_pkglen k v Hpk) as Hlk.
+  pose proof (rep_len_g _ _ _ H) as Hlg. pose proof (rep_len_pool _ _ _ H) as Hlp.
+  assert (Hsclt : sc < N.of_nat (length pl)) by (eapply pget_lt; eauto).
+  assert (Ef : exists f', fi = S (S (S (S (S (S (S (S f')))))))) by (exists (fi - 8)%nat; lia). destruct Ef as (f' & ->).
+  set (b := N.of_nat (length pl)) in *.
+  set (s0 := st1 (lenN pre) e t (sc :: ss) (e :: es)).
+  assert (HlenI : lenN ([OP_PACKAGE] ++ enc_pkglen k v ++ [n] ++ enc_pels els) = 1 + v).
+  { rewrite !lenN_app, Hlk. change (lenN [OP_PACKAGE]) with 1. change (lenN [n]) with 1. lia. }
+  rewrite lenN_app, HlenI in He.
+  assert (Hat0 : at_token (p_r s0) pre (enc_op aml_pOpPackage ++ enc_pkglen k v ++ enc_fx [(W1, n)] ++ (enc_pels els ++ enc_pels rest)) post).
+  { apply mk_at; [ |reflexivity| |exact Hel|exact Hlen|exact Hsmall|exact Hbytes].
+    - rewrite Hd. cbn [enc_fx fw_enc]. change (enc_op aml_pOpPackage) with [OP_PACKAGE]. lnorm. reflexivity.
+    - cbn [enc_fx fw_enc]. change (enc_op aml_pOpPackage) with [OP_PACKAGE]. rewrite !lenN_app, Hlk. change (lenN [OP_PACKAGE]) with 1. change (lenN [n]) with 1. change (lenN (@nil N)) with 0. lia. }
+  (* the header of the package *)
+  apply wp_list_cont_S. unfold eofM, rq. apply wp_bind, wp_get.
+  assert (Hne : eof (p_r s0) = false) by (change (enc_op aml_pOpPackage) with [0x12] in Hat0; cbn [app] in Hat0; apply (at_not_eof _ _ _ _ _ Hat0)).
+  rewrite Hne.
+  apply wp_bind. eapply wp_conseq.
+  { eapply (next_pkg f' s0 g pl pre k v n _ post sc ss a);
+      [exact H|exact Hfree|lia|exact Hat0|exact Hn|exact Hpk|lia| |reflexivity|exact Hsc|exact Hlsc|reflexivity].
+    cbn [s0 st1 p_r r_len]. lia. }
+  intros res s1 (-> & t1 & -> & H1). change (pres_eqb ROk ROk) with true. cbv iota.
+  set (off1 := lenN pre + 1 + k + 1). set (e1 := lenN pre + 1 + v).
+  set (pl1 := pl ++ pkg_pays' s0 (lenN pre) k n) in *.
+  assert (Hpl1 : pl1 = pl ++ [pkg_pay h (lenN pre); num_pay h W1 (lenN pre + 1 + k) n; sb_pay h (lenN pre + 1 + k + 1)]) by reflexivity.
+  assert (Hl1 : length pl1 = (3 + length pl)%nat) by (unfold pl1; rewrite app_length; cbn [pkg_pays' length]; lia).
+  set (s1 := st1 off1 e1 t1 (b + 2 :: sc :: ss) (e1 :: e :: es)).
+  assert (Es1 : after_blk s0 2 off1 e1 t1 = s1).
+  { unfold after_blk, s1, s0, st1. scbn. unfold set_pkgEnd_raw, set_offset_raw. cbn [r_data r_len r_offset r_pkgEnd p_r p_tree]. rewrite <- Hlp. reflexivity. }
+  rewrite Es1.
+  (* the elements *)
+  set (pre1 := pre ++ [OP_PACKAGE] ++ enc_pkglen k v ++ [n]).
+  assert (Hlp1 : lenN pre1 = off1).
+  { unfold pre1, off1. rewrite !lenN_app, Hlk. change (lenN [OP_PACKAGE]) with 1. change (lenN [n]) with 1. lia. }
+  assert (Hsb1 : pget pl1 (b + 2) = Some (sb_pay h off1)).
+  { rewrite Hpl1. unfold b. rewrite pget_app_new. reflexivity. }
+  eapply (IHb fo _ off1 e1 t1 (b + 2) (sc :: ss) (e :: es) _ pl1 pre1 (enc_pels rest ++ post) _ (pels_cnt rest + R + 1)%nat Q);
+    [exact H1|apply free_g_args; reflexivity|rewrite Hl1; lia| |symmetry; exact Hlp1| | |exact Hel_ok|cbn [length]; rewrite Hbal; reflexivity|exact Hsb1|discriminate|lia|lia|lia|].
+  { unfold pre1. rewrite Hd. lnorm. reflexivity. }
+  { rewrite Hlp1. unfold off1, e1. lia. }
+  { unfold e1. lia. }
+  intros t2 g2 pl2 fo2 fi2 H2 P2 Hfi2 Hfo2.
+  (* the end of the package *)
+  destruct fi2 as [|fi2']; [lia|]. apply wp_list_cont_S. unfold eofM, rq. apply wp_bind, wp_get.
+  assert (Eeof : eof (p_r (st1 (off1 + lenN (enc_pels els)) e1 t2 (b + 2 :: sc :: ss) (e1 :: e :: es))) = true).
+  { unfold eof. cbn [st1 p_r r_pkgEnd r_offset]. apply N.leb_le. unfold e1, off1. lia. }
+  rewrite Eeof.
+  destruct fo2 as [|fo2']; [lia|].
+  apply wp_list_end; [exact Hbal|exact Hel|].
+  (* the rest *)
+  set (pre2 := pre1 ++ enc_pels els).
+  assert (Hlp2 : lenN pre2 = off1 + lenN (enc_pels els)) by (unfold pre2; rewrite lenN_app, Hlp1; reflexivity).
+  assert (Hl2 : length pl2 = (length pl + 3 + pels_sz els)%nat).
+  { rewrite (p1_len _ _ _ _ _ _ P2), Hl1, pel_trees_rsizes. lia. }
+  assert (P02 : Post1 g pl g2 pl2 sc [pel_tree h tbl b (lenN pre) (PSub k n els)]).
+  { apply post1_sub; [exact Hsclt|exact Hlg|]. rewrite <- Hpl1. fold b.
+    replace (b + 3) with (N.of_nat (length pl1)) by (rewrite Hl1; unfold b; lia). exact P2. }
+  assert (Hsc2 : pget pl2 sc = Some a).
+  { rewrite (p1_old_p _ _ _ _ _ _ P02) by exact Hsclt. exact Hsc. }
+  eapply (IH fo2' _ (off1 + lenN (enc_pels els)) e t2 sc ss es g2 pl2 pre2 post a R Q);
+    [exact H2|apply (p1_free _ _ _ _ _ _ P2)|rewrite Hl2; lia| |symmetry; exact Hlp2| |exact Hel|exact Hok|exact Hbal|exact Hsc2|exact Hlsc|exact HR|lia|lia|].
+  { unfold pre2, pre1. rewrite Hd. lnorm. reflexivity. }
+  { rewrite Hlp2. unfold off1. lia. }
+  intros t3 g3 pl3 fo3 fi3 H3 P3 Hfi3 Hfo3.
+  specialize (K t3 g3 pl3 fo3 fi3 H3).
+  rewrite pel_trees_cons, pel_sz_sub in K. fold b in K.
+  replace (b + N.of_nat (3 + pels_sz els)) with (N.of_nat (length pl2)) in K by (rewrite Hl2; unfold b; lia).
+  rewrite enc_pels_cons, lenN_app, enc_pel_sub in K. fold v in K. rewrite HlenI in K.
+  replace (lenN pre + (1 + v)) with (off1 + lenN (enc_pels els)) in K by (unfold off1; lia).
+  replace (lenN pre + (1 + v + lenN (enc_pels rest))) with (off1 + lenN (enc_pels els) + lenN (enc_pels rest)) in K by (unfold off1; lia).
+  apply K; [|exact Hfi3|exact Hfo3].
+  change (pel_tree h tbl b (lenN pre) (PSub k n els) :: pel_trees h tbl (N.of_nat (length pl2)) (off1 + lenN (enc_pels els)) rest)
+    with ([pel_tree h tbl b (lenN pre) (PSub k n els)] ++ pel_trees h tbl (N.of_nat (length pl2)) (off1 + lenN (enc_pels els)) rest).
+  eapply Post1_app; [exact Hsclt| |exact P02|exact P3].
+  intros x Hx. unfold rnodesl in Hx. cbn [flat_map] in Hx. rewrite app_nil_r in Hx. apply pel_tree_nodes in Hx. rewrite pel_sz_sub in Hx. rewrite Hl2. unfold b in *. lia.
+Qed.
+
+Theorem espec_all : forall els, ESpec els.
+Proof.
+  induction els as [|a rest IH|k n es rest IHe IH] using pels_ind.
+  - apply espec_nil.
+  - apply espec_leaf; assumption.
+  - apply espec_sub; assumption.
+Qed.
+
+(** Name(SEG, Package ...): the Name object, then the package as the next object of the same scope *)
 Lemma ispec_pkg seg k n elems rest : ISpec rest -> ISpec (IPkg seg k n elems :: rest).
 Proof.
   intros IH fo fi off e t sc ss es g pl pre post a R Q H Hfree Hroom Hd Ho He Hel Hok Hbal Hsc Hlsc HR Hfi Hfo K.
   apply forallb_item_cons in Hok. destruct Hok as [Hd_ok Hok]. cbn [item_okb] in Hd_ok.
-  apply andb_prop in Hd_ok. destruct Hd_ok as [Hx Hel_ok]. apply andb_prop in Hx. destruct Hx as [Hx Hpk]. apply pkglen_okb_adm in Hpk.
-  apply andb_prop in Hx. destruct Hx as [Hx Hn]. apply N.ltb_lt in Hn. apply andb_prop in Hx. destruct Hx as [Hlead _].
-  set (m := length elems) in *.
-  rewrite iszs_cons, isz_pkg in Hroom. rewrite icnts_cons in Hfi, Hfo. cbn [icnt] in Hfi, Hfo. fold m in Hroom, Hfi, Hfo.
+  apply andb_prop in Hd_ok. destruct Hd_ok as [Hx Hel_ok]. apply andb_prop in Hx. destruct Hx as [Hx Hpk].
+  apply andb_prop in Hx. destruct Hx as [Hx Hn]. apply andb_prop in Hx. destruct Hx as [Hlead _].
+  assert (Hsub : forallb pel_okb [PSub k n elems] = true).
+  { cbn [forallb]. rewrite pel_okb_sub, Hn, Hpk, Hel_ok. reflexivity. }
+  rewrite iszs_cons, isz_pkg in Hroom. rewrite icnts_cons in Hfi, Hfo. cbn [icnt] in Hfi, Hfo.
   rewrite enc_items_cons, enc_pkg_item in Hd, He. subst off.
-  set (v := k + lenN ([n] ++ enc_ta elems)) in *.
-  assert (Hv : v = k + 1 + lenN (enc_ta elems)) by (unfold v; rewrite lenN_app; change (lenN [n]) with 1; lia).
-  pose proof (lenN_enc_pkglen k v Hpk) as Hlk.
+  set (PK := [OP_PACKAGE] ++ enc_pkglen k (k + lenN ([n] ++ enc_pels elems)) ++ [n] ++ enc_pels elems) in *.
+  assert (EPK : enc_pels [PSub k n elems] = PK) by (cbn [enc_pels flat_map]; rewrite enc_pel_sub, app_nil_r; reflexivity).
   pose proof (rep_len_g _ _ _ H) as Hlg. pose proof (rep_len_pool _ _ _ H) as Hlp.
   assert (Hsclt : sc < N.of_nat (length pl)) by (eapply pget_lt; eauto).
-  assert (Ef : exists f', fi = S (S (S (S (S (S (S (S (S (m + f')))))))))) by (exists (fi - m - 9)%nat; lia). destruct Ef as (f' & ->).
+  assert (Ef : exists f', fi = S (S (S (S (S (S f')))))) by (exists (fi - 6)%nat; lia). destruct Ef as (f' & ->).
   set (b := N.of_nat (length pl)) in *.
   set (s0 := st1 (lenN pre) e t (sc :: ss) (e :: es)).
-  assert (HlenI : lenN (OP_NAME :: seg_bytes seg ++ [OP_PACKAGE] ++ enc_pkglen k v ++ [n] ++ enc_ta elems) = 5 + 1 + v).
-  { rewrite lenN_cons, !lenN_app, Hlk. change (lenN (seg_bytes seg)) with 4. change (lenN [OP_PACKAGE]) with 1. change (lenN [n]) with 1. lia. }
+  assert (HlenI : lenN (OP_NAME :: seg_bytes seg ++ PK) = 5 + lenN PK).
+  { rewrite lenN_cons, lenN_app. change (lenN (seg_bytes seg)) with 4. lia. }
   rewrite lenN_app, HlenI in He.
-  assert (Hat0 : at_token (p_r s0) pre (OP_NAME :: seg_bytes seg ++ ([OP_PACKAGE] ++ enc_pkglen k v ++ [n] ++ enc_ta elems) ++ enc_items rest) post).
+  assert (Hat0 : at_token (p_r s0) pre (OP_NAME :: seg_bytes seg ++ PK ++ enc_items rest) post).
   { apply mk_at; [ |reflexivity| |exact Hel|exact Hlen|exact Hsmall|exact Hbytes].
     - rewrite Hd. lnorm. reflexivity.
-    - rewrite lenN_cons, !lenN_app, Hlk. change (lenN (seg_bytes seg)) with 4. change (lenN [OP_PACKAGE]) with 1. change (lenN [n]) with 1. lia. }
+    - rewrite lenN_cons, !lenN_app. change (lenN (seg_bytes seg)) with 4. lia. }
   (* the Name object *)
   apply wp_list_cont_S. unfold eofM, rq. apply wp_bind, wp_get. rewrite (at_not_eof _ _ _ _ _ Hat0).
   apply wp_bind. eapply wp_conseq.
   { eapply (next_name _ s0 g pl pre seg _ post sc ss a); [exact H|exact Hfree|lia|exact Hat0|exact Hlead|reflexivity|exact Hsc|exact Hlsc|reflexivity]. }
   intros res s1 (-> & t1 & -> & H1). change (pres_eqb ROk ROk) with true. cbv iota.
   set (pl1 := pl ++ [mkPay aml_pOpName 3 (p_handle s0) name_zero (lenN pre) 0 None; path_pay s0 (lenN pre + 1) 4]) in *.
+  assert (Hpl1 : pl1 = pl ++ [nam_pay h (lenN pre) name_zero; pth_pay h tbl (lenN pre + 1)]) by reflexivity.
   assert (Hl1 : length pl1 = S (S (length pl))) by (unfold pl1; rewrite app_length; cbn [length]; lia).
   assert (Hsc1 : pget pl1 sc = Some a) by (unfold pl1; rewrite pget_app_old by exact Hsclt; exact Hsc).
   set (pre1 := pre ++ OP_NAME :: seg_bytes seg).
   assert (Hlp1 : lenN pre1 = lenN pre + 5).
   { unfold pre1. rewrite lenN_app, lenN_cons. change (lenN (seg_bytes seg)) with 4. lia. }
-  set (s1 := st1 (lenN pre + 5) e t1 (sc :: ss) (e :: es)).
-  change (with_tree (with_r s0 (set_offset_raw (p_r s0) (lenN pre + 5))) t1) with s1.
-  assert (Hat1 : at_token (p_r s1) pre1 (enc_op aml_pOpPackage ++ enc_pkglen k v ++ enc_fx [(W1, n)] ++ (enc_ta elems ++ enc_items rest)) post).
-  { pose proof (at_adv (p_r s0) pre (OP_NAME :: seg_bytes seg) _ post Hat0) as A.
-    rewrite lenN_cons in A. change (lenN (seg_bytes seg)) with 4 in A. replace (lenN pre + (1 + 4)) with (lenN pre + 5) in A by lia.
-    cbn [enc_fx fw_enc]. rewrite app_nil_r. revert A. lnorm. intros A. exact A. }
-  (* the header of the Package *)
-  apply wp_list_cont_S. unfold eofM, rq. apply wp_bind, wp_get.
-  assert (Hne : eof (p_r s1) = false) by (change (enc_op aml_pOpPackage) with [0x12] in Hat1; cbn [app] in Hat1; apply (at_not_eof _ _ _ _ _ Hat1)).
-  rewrite Hne.
-  apply wp_bind. eapply wp_conseq.
-  { eapply (next_pkg (m + f') s1 _ pl1 pre1 k v n _ post sc ss a);
-      [exact H1|apply free_g_name|rewrite Hl1; lia|exact Hat1|exact Hn|exact Hpk|lia| |reflexivity|exact Hsc1|exact Hlsc|reflexivity].
-    rewrite Hlp1. cbn [s1 st1 p_r r_len]. lia. }
-  intros res s2 (-> & t2 & -> & H2). change (pres_eqb ROk ROk) with true. cbv iota. rewrite Hlp1 in H2 |- *.
-  set (off1 := lenN pre + 5 + 1 + k + 1). set (e1 := lenN pre + 5 + 1 + v).
-  set (pl2 := pl1 ++ pkg_pays' s1 (lenN pre + 5) k n) in *.
-  assert (Hl2 : length pl2 = (5 + length pl)%nat) by (unfold pl2; rewrite app_length, Hl1; cbn [pkg_pays' length]; lia).
-  set (s2 := st1 off1 e1 t2 (b + 4 :: sc :: ss) (e1 :: e :: es)).
-  assert (Es2 : after_blk s1 2 off1 e1 t2 = s2).
-  { unfold after_blk, s2, s1, st1. scbn. unfold set_pkgEnd_raw, set_offset_raw. cbn [r_data r_len r_offset r_pkgEnd p_r p_tree].
-    rewrite <- (rep_len_pool _ _ _ H1), Hl1. replace (N.of_nat (S (S (length pl))) + 2) with (b + 4) by (unfold b; lia). reflexivity. }
-  rewrite Es2.
-  (* the elements *)
-  set (pre2 := pre1 ++ [OP_PACKAGE] ++ enc_pkglen k v ++ [n]).
-  assert (Hlp2 : lenN pre2 = off1).
-  { unfold pre2, off1. rewrite !lenN_app, Hlp1, Hlk. change (lenN [OP_PACKAGE]) with 1. change (lenN [n]) with 1. lia. }
-  assert (Hsb2 : pget pl2 (b + 4) = Some (sb_pay h off1)).
-  { unfold pl2. replace (b + 4) with (N.of_nat (length pl1) + 2) by (rewrite Hl1; unfold b; lia). rewrite pget_app_new. reflexivity. }
-  replace (S (S (S (S (S (S (S (m + f')))))))) with (m + S (S (S (S (S (S (S (f'))))))))%nat by lia.
-  eapply (cst_loop elems fo _ off1 e1 t2 (b + 4) (sc :: ss) (e :: es) _ pl2 pre2 (enc_items rest ++ post) _ Q);
-    [exact H2|apply free_g_args; reflexivity|rewrite Hl2; fold m; lia| |symmetry; exact Hlp2| | |exact Hel_ok|exact Hsb2|discriminate|].
+  change (with_tree (with_r s0 (set_offset_raw (p_r s0) (lenN pre + 5))) t1) with (st1 (lenN pre + 5) e t1 (sc :: ss) (e :: es)).
+  assert (P01 : Post1 g pl (g_name g sc) pl1 sc [RN b (nam_pay h (lenN pre) name_zero) [RN (b + 1) (pth_pay h tbl (lenN pre + 1)) []]]).
+  { rewrite Hpl1. apply post1_nameonly; assumption. }
+  (* the package, an object of the same scope *)
+  eapply (espec_all [PSub k n elems] fo _ (lenN pre + 5) e t1 sc ss es _ pl1 pre1 (enc_items rest ++ post) a (icnts rest + R + 2)%nat Q);
+    [exact H1|apply free_g_name|rewrite Hl1; cbn [pels_sz fold_right]; rewrite pel_sz_sub; lia| |symmetry; exact Hlp1| |exact Hel|exact Hsub|exact Hbal|exact Hsc1|exact Hlsc|lia| | |].
+  { rewrite EPK. unfold pre1. rewrite Hd. lnorm. reflexivity. }
+  { rewrite EPK, Hlp1. lia. }
+  { cbn [pels_cnt fold_right]. rewrite pel_cnt_sub. fold (pels_cnt elems). lia. }
+  { cbn [pels_cnt fold_right]. rewrite pel_cnt_sub. fold (pels_cnt elems). lia. }
+  intros t2 g2 pl2 fo2 fi2 H2 P2 Hfi2 Hfo2. rewrite EPK in *.
+  assert (Hl2 : length pl2 = (length pl + 5 + pels_sz elems)%nat).
+  { rewrite (p1_len _ _ _ _ _ _ P2), Hl1, pel_trees_rsizes. cbn [pels_sz fold_right]. rewrite pel_sz_sub. fold (pels_sz elems). lia. }
+  assert (P02 : Post1 g pl g2 pl2 sc (lay1_item h tbl b (lenN pre) (IPkg seg k n elems))).
+  { cbn [lay1_item]. unfold pkg_tree.
+    change [RN b (nam_pay h (lenN pre) name_zero) [RN (b + 1) (pth_pay h tbl (lenN pre + 1)) []]; pel_tree h tbl (b + 2) (lenN pre + 5) (PSub k n elems)]
+      with ([RN b (nam_pay h (lenN pre) name_zero) [RN (b + 1) (pth_pay h tbl (lenN pre + 1)) []]] ++ [pel_tree h tbl (b + 2) (lenN pre + 5) (PSub k n elems)]).
+    eapply Post1_app; [exact Hsclt| |exact P01|].
+    - intros x Hx. unfold rnodesl in Hx. cbn [flat_map] in Hx. rewrite !rnodes_eq in Hx. cbn [rnodesl flat_map app In] in Hx. rewrite !rnodes_eq in Hx. cbn [rnodesl flat_map app In] in Hx. rewrite Hl1. unfold b in *. lia.
+    - cbn [pel_trees] in P2. replace (N.of_nat (length pl1)) with (b + 2) in P2 by (rewrite Hl1; unfold b; lia). exact P2. }
+  assert (Hsc2 : pget pl2 sc = Some a) by (rewrite (p1_old_p _ _ _ _ _ _ P02) by exact Hsclt; exact Hsc).
+  set (pre2 := pre1 ++ PK).
+  assert (Hlp2 : lenN pre2 = lenN pre + 5 + lenN PK) by (unfold pre2; rewrite lenN_app, Hlp1; reflexivity).
+  eapply (IH fo2 fi2 (lenN pre + 5 + lenN PK) e t2 sc ss es g2 pl2 pre2 post a R Q);
+    [exact H2|apply (p1_free _ _ _ _ _ _ P2)|rewrite Hl2; lia| |symmetry; exact Hlp2| |exact Hel|exact Hok|exact Hbal|exact Hsc2|exact Hlsc|exact HR|lia|lia|].
   { unfold pre2, pre1. rewrite Hd. lnorm. reflexivity. }
-  { rewrite Hlp2. unfold off1, e1. lia. }
-  { unfold e1. lia. }
-  intros t3 H3.
-  (* the end of the Package *)
-  apply wp_list_cont_S. unfold eofM, rq. apply wp_bind, wp_get.
-  assert (Eeof : eof (p_r (st1 (off1 + lenN (enc_ta elems)) e1 t3 (b + 4 :: sc :: ss) (e1 :: e :: es))) = true).
-  { unfold eof. cbn [st1 p_r r_pkgEnd r_offset]. apply N.leb_le. unfold e1, off1. lia. }
-  rewrite Eeof.
-  destruct fo as [|fo']; [lia|].
-  apply wp_list_end; [exact Hbal|exact Hel|].
-  (* the rest *)
-  set (pl3 := pl2 ++ cst_pays h tbl off1 elems) in *.
-  assert (Hpl3 : pl3 = pl ++ [nam_pay h (lenN pre) name_zero; pth_pay h tbl (lenN pre + 1); pkg_pay h (lenN pre + 5); num_pay h W1 (lenN pre + 5 + 1 + k) n; sb_pay h (lenN pre + 5 + 1 + k + 1)] ++
-                         cst_pays h tbl (lenN pre + 5 + 1 + k + 1) elems).
-  { unfold pl3, pl2, pl1. rewrite <- !app_assoc. reflexivity. }
-  assert (Hl3 : length pl3 = (length pl + 5 + m)%nat) by (unfold pl3; rewrite app_length, Hl2, len_cst_pays; fold m; lia).
-  set (pre3 := pre2 ++ enc_ta elems).
-  assert (Hlp3 : lenN pre3 = off1 + lenN (enc_ta elems)) by (unfold pre3; rewrite lenN_app, Hlp2; reflexivity).
-  assert (P01 : Post1 g pl (g_args (g_args (g_head (g_name g sc) sc) (b + 2) 2) (b + 4) m) pl3 sc (lay1_item h tbl b (lenN pre) (IPkg seg k n elems))).
-  { rewrite Hpl3. apply post1_pkg; [exact Hsclt|exact Hlg]. }
-  assert (Hsc3 : pget pl3 sc = Some a) by (rewrite (p1_old_p _ _ _ _ _ _ P01) by exact Hsclt; exact Hsc).
-  replace (N.of_nat (length pl1)) with (b + 2) in H3 by (rewrite Hl1; unfold b; lia).
-  eapply (IH fo' _ (off1 + lenN (enc_ta elems)) e t3 sc ss es _ pl3 pre3 post a R Q);
-    [exact H3|apply free_g_args; apply free_g_args; reflexivity|rewrite Hl3; lia| |symmetry; exact Hlp3| |exact Hel|exact Hok|exact Hbal|exact Hsc3|exact Hlsc|exact HR|lia|lia|].
-  { unfold pre3, pre2, pre1. rewrite Hd. lnorm. reflexivity. }
-  { rewrite Hlp3. unfold off1. lia. }
+  { rewrite Hlp2. lia. }
   intros t4 g4 pl4 fo4 fi4 H4 P4 Hfi4 Hfo4.
   specialize (K t4 g4 pl4 fo4 fi4 H4).
-  rewrite lay1_cons, isz_pkg in K. fold b m in K.
-  replace (b + N.of_nat (5 + m)) with (N.of_nat (length pl3)) in K by (rewrite Hl3; unfold b; lia).
-  rewrite enc_items_cons, lenN_app, enc_pkg_item in K. fold v in K. rewrite HlenI in K.
-  replace (lenN pre + (5 + 1 + v)) with (off1 + lenN (enc_ta elems)) in K by (unfold off1; lia).
-  replace (lenN pre + (5 + 1 + v + lenN (enc_items rest))) with (off1 + lenN (enc_ta elems) + lenN (enc_items rest)) in K by (unfold off1; lia).
+  rewrite lay1_cons, isz_pkg in K. fold b in K.
+  replace (b + N.of_nat (5 + pels_sz elems)) with (N.of_nat (length pl2)) in K by (rewrite Hl2; unfold b; lia).
+  rewrite enc_items_cons, lenN_app, enc_pkg_item in K. fold PK in K. rewrite HlenI in K.
+  replace (lenN pre + (5 + lenN PK)) with (lenN pre + 5 + lenN PK) in K by lia.
+  replace (lenN pre + (5 + lenN PK + lenN (enc_items rest))) with (lenN pre + 5 + lenN PK + lenN (enc_items rest)) in K by lia.
   apply K; [|exact Hfi4|exact Hfo4].
-  eapply Post1_app; [exact Hsclt| |exact P01|exact P4].
+  eapply Post1_app; [exact Hsclt| |exact P02|exact P4].
   intros x Hx. assert (Hx' : In x (rnodesl (lay1 h tbl b (lenN pre) [IPkg seg k n elems]))) by (cbn [lay1]; rewrite app_nil_r; exact Hx).
-  clear Hx. rename Hx' into Hx. apply lay1_nodes in Hx. cbn [iszs fold_right] in Hx. rewrite isz_pkg in Hx. fold m in Hx. rewrite Hl3. unfold b in *. lia.
+  clear Hx. rename Hx' into Hx. apply lay1_nodes in Hx. cbn [iszs fold_right] in Hx. rewrite isz_pkg in Hx. rewrite Hl2. unfold b in *. lia.
 Qed.
 
 Theorem ispec_all : forall its, ISpec its.
